@@ -459,3 +459,51 @@ Definition words_check (c : words_case) : bool :=
   | Some (T3 v) => obs_matches (select_words nW (wc_words c) v) (wc_obs c) && obs_matches (call_words_m nT nG nW (wc_words c) v) (wc_obs c)
   | _ => false
   end.
+
+(* ---------------------------------------------------------------- count boundaries: very many traces, few distinct rows
+   The batch is given run-length encoded: [runs] = (index of a distinct row, repetitions), expanded with [repeat].  The base case holds
+   the DISTINCT rows as its inputs and, as its observation, the planes of the big result at the first occurrence of every distinct
+   row (validated by the ordinary check); of the big result itself the harness exports its shape, a sample of (trace, guess, word)
+   entries and every guess column of some whole traces (the first and the last one).  Expected big array = the per-row planes
+   expanded along the runs (Proofs/SelFunArr.v: full_F and select_words commute with the expansion). *)
+Definition expand {A} (d : A) (rows : list A) (runs : list (nat * nat)) : list A :=
+  flat_map (fun r => repeat (nth (fst r) rows d) (snd r)) runs.
+
+Definition runs_ok (n : nat) (runs : list (nat * nat)) : bool := forallb (fun r => Nat.ltb (fst r) n) runs.
+
+Definition expand_tens (t : tens) (runs : list (nat * nat)) : tens :=
+  match t with T2 m => T2 (expand [] m runs) | T3 c => T3 (expand [] c runs) end.
+
+Record big_obs := {
+  bo_runs : list (nat * nat);
+  bo_shape : list nat;                          (* shape of the big result *)
+  bo_samples : list (nat * nat * nat * N);      (* (trace, guess position, word position, value); the word position is ignored for a 2-D result *)
+  bo_traces : list (nat * list N) }.            (* (trace, all its values in C order) *)
+
+Definition tens_entry (t : tens) (tr j w : nat) : N :=
+  match t with T2 m => nth j (nth tr m []) 0 | T3 c => nth w (nth j (nth tr c []) []) 0 end.
+Definition tens_trace (t : tens) (tr : nat) : list N :=
+  match t with T2 m => nth tr m [] | T3 c => concat (nth tr c []) end.
+
+Definition big_check (small : option tens) (nrows : nat) (b : big_obs) : bool :=
+  match small with
+  | None => false
+  | Some s =>
+    let e := expand_tens s (bo_runs b) in
+    runs_ok nrows (bo_runs b)
+    && natlist_eqb (dims_of e) (bo_shape b)
+    && forallb (fun x => let '(tr, j, w, v) := x in N.eqb (tens_entry e tr j w) v) (bo_samples b)
+    && forallb (fun x => nlist_eqb (tens_trace e (fst x)) (snd x)) (bo_traces b)
+  end.
+
+Record aes_big_case := { ab_base : aes_sf_case; ab_big : big_obs }.
+Definition aes_big_check (c : aes_big_case) : bool :=
+  aes_sf_check (ab_base c)
+  && big_check (option_map snd (aes_sf_expected (ab_base c))) (length (ac_inp (ab_base c))) (ab_big c).
+Definition aes_big_corr (c : aes_big_case) : bool := aes_sf_corr (ab_base c).
+
+Record des_big_case := { db_base : des_sf_case; db_big : big_obs }.
+Definition des_big_check (c : des_big_case) : bool :=
+  des_sf_check (db_base c)
+  && big_check (option_map snd (des_sf_expected (db_base c))) (length (dc_inp (db_base c))) (db_big c).
+Definition des_big_corr (c : des_big_case) : bool := des_sf_corr (db_base c).
